@@ -393,10 +393,30 @@ def ob_interval_siblings(ctx, res):
                             (RB, "BigBedRead", [("get_interval", "get_interval_move"), ("get_zoom_interval", "get_zoom_interval_move")])):
         for a, b in pairs:
             fa, fb = ctx.ast.fn(file, a, impl=ty), ctx.ast.fn(file, b, impl=ty)
-            if up(fa.body) != up(fb.body):
-                res.fail("intervalSiblings/%s/%s" % (ty, a), fb, "%s and %s differ beyond ownership of self" % (a, b))
-            else:
+            if up(fa.body) == up(fb.body):
                 res.ok(fa, "%s::%s and %s identical up to ownership of self" % (ty, a, b))
+                continue
+            # spelled differently: both must do the same three things - search the same index with the caller's (chrom, start, end),
+            # and build the iterator from the blocks in search order with the same range
+            sig = []
+            for f_ in (fa, fb):
+                sc = [c for c in walk_no_nested_fn(f_.body) if c.k == "call" and up(c["func"]) == "search_cir_tree"]
+                lit = [n for n in walk_no_nested_fn(f_.body) if n.k == "struct" and n["path"].endswith("IntervalIter")]
+                ctor = [c for c in walk_no_nested_fn(f_.body) if c.k == "call" and re.search(r"IntervalIter::new$", up(c["func"]))]
+                if len(sc) == 1 and not lit and len(ctor) == 1:
+                    sig.append(([origin(f_, x) for x in sc[0]["args"][2:]], {"args": [re.sub(r"\bp0\b|self", "SELF", origin(f_, x)) for x in ctor[0]["args"]]}))
+                    continue
+                if len(sc) != 1 or len(lit) != 1:
+                    sig.append(None)
+                    continue
+                fl = {x["name"]: origin(f_, x["e"]) if x.get("e") is not None and not x.get("shorthand") else origin(f_, x["e"]) if x.get("e") is not None else x["name"] for x in lit[0]["fields"]}
+                sig.append(([origin(f_, x) for x in sc[0]["args"][2:]], {k: re.sub(r"\bp0\b|self", "SELF", v) for k, v in fl.items() if k in ("blocks", "start", "end", "chrom", "expected_chrom")}))
+            if None in sig:
+                res.undecided("intervalSiblings/%s/%s" % (ty, a), fb, "%s and %s are spelled differently and their shape was not recognised" % (a, b))
+            elif sig[0] != sig[1]:
+                res.fail("intervalSiblings/%s/%s" % (ty, a), fb, "%s and %s differ beyond ownership of self: index/query %s vs %s, iterator fields %s vs %s" % (a, b, sig[0][0], sig[1][0], sig[0][1], sig[1][1]))
+            else:
+                res.ok(fa, "%s::%s and %s: same index searched with the same query, iterator built from the same blocks and range (spelled differently)" % (ty, a, b))
     # the query reaches search_cir_tree and the iterator unchanged
     for file, ty in ((RW, "BigWigRead"), (RB, "BigBedRead")):
         fn = ctx.ast.fn(file, "get_interval", impl=ty)
